@@ -52,8 +52,7 @@ THEOREMS = ['C05_pot_transform_compl_untouched', 'C05_pot_transform_den',
             'C05_located_enumerated', 'C05_located_unique',
             'C05_descents_distinct', 'C05_by_universe_lists',
             'C05_inline_cells_den', 'C05_trcl_phase_den',
-            'C05_explicit_transformation_not_empty',
-            'C05_starred_keyword_without_numbers_refuted']
+            'C05_explicit_transformation_not_empty']
 
 
 def tie_case_summary(case):
@@ -276,29 +275,23 @@ def run(res, tier, seed, proofs_ok):
                  'observed': [f['why'] for f in fails[:5]]},
                 found_input=True)
 
-    # open finding: a vacuous star on FILL makes the TRCL of the container
-    # be ignored (parse_fill_kw returns the identity instead of ())
-    for name, deck, text, holder, options in starred_fill_witnesses():
+    # regression corpus: a vacuous star on FILL (fixed in /repo c2e06ed:
+    # `*fill=n` without numbers yields (), the filler follows the TRCL)
+    for name, deck, text, _holder, options in starred_fill_witnesses():
         fails = text_failures(deck, text, options)
-        res.count('witness:starred_fill_without_transformation')
+        res.count('corpus:starred_fill_without_transformation')
         res.seen((text, tuple(options)), nontrivial=True)
-        in_class = [f for f in fails
-                    if f.get('kind') in ('count', 'provenance', 'id', 'outside')
-                    and f'({holder}, None)' in f['why']]
-        other = [f for f in fails if f not in in_class]
-        for group, cls in ((other, None),
-                           (in_class, 'starred_fill_without_transformation')):
-            if group:
-                res.violation(
-                    'impl-violation',
-                    f'{name}: {len(group)} sample points misplaced: '
-                    f'{group[0]["why"]}',
-                    {'input': {'deck': text, 'options': options,
-                               'abstract': deck, 'point': group[0]['point']},
-                     'expected': 'mcnpref.Reference.locate (a FILL without '
-                                 'transformation follows the TRCL)',
-                     'observed': [f['why'] for f in group[:5]]},
-                    cls=cls, found_input=True)
+        if fails:
+            res.violation(
+                'impl-violation',
+                f'{name}: {len(fails)} sample points misplaced: '
+                f'{fails[0]["why"]}',
+                {'input': {'deck': text, 'options': options,
+                           'abstract': deck, 'point': fails[0]['point']},
+                 'expected': 'mcnpref.Reference.locate (a FILL without '
+                             'transformation follows the TRCL)',
+                 'observed': [f['why'] for f in fails[:5]]},
+                found_input=True)
 
     # 2. tie
     cases, meta = [], []
@@ -480,7 +473,8 @@ def replay(path):
         print('implementation:', outcome)
         model, _ = common.coq_eval(
             HEADER, 'let c := ' + c05_kw.coq_case(case, outcome) + ' in '
-            '(parse_tr_params (w_star c) (w_trid c) (w_params c) (w_table c), '
+            '(parse_tr_params (w_fill c) (w_star c) (w_trid c) (w_params c) '
+            '(w_table c), '
             'check_kw c)')
         print('model (tokens as codes, 0 = 0.0, 1 = 1.0):', model)
     elif 'tie_case' in inp:
